@@ -93,6 +93,9 @@ Fixpoint free_vars (e : expr) (bound : list string) {struct e} : list string :=
   | EId x =>
       if mem x bound || String.eqb x "infinity" || String.eqb x "inf" || String.eqb x "constants"
       then [] else [x]
+  (* `#field` reads the variable `inputs` (repo fix of F54, known/C05.json; before it an input
+     reference was no use of any name, so `inputs` was not captured by `x => x * #rate`) *)
+  | EInRef _ => if mem "inputs" bound then [] else ["inputs"]
   | ELam args body => free_vars body (map arg_name args ++ bound)
   | EBin _ l r => free_vars l bound ++ free_vars r bound
   | EUn _ a | EFact a | ESpread a => free_vars a bound
@@ -130,7 +133,7 @@ Fixpoint free_vars (e : expr) (bound : list string) {struct e} : list string :=
              | _ => free_vars s bnd ++ go r bnd
              end
          end) stmts bound
-  | _ => []                      (* literals, InputReference, BuiltIn, Output *)
+  | _ => []                      (* literals, BuiltIn, Output *)
   end.
 
 (* the scope captured when a lambda is created (Expr::Lambda arm) *)
